@@ -53,6 +53,8 @@ Fixpoint roots_for (l : list (pystr * list bytes)) (fmt : bytes) : list bytes :=
                    end
   end.
 
+Definition is_nilb {A} (l : list A) : bool := match l with [] => true | _ => false end.
+
 Definition fmt_is (fmt : bytes) (name : string) : bool := bytes_eqb fmt (s2l name).
 
 Definition stmt_any_set (st : att_stmt) : bool :=
@@ -60,6 +62,21 @@ Definition stmt_any_set (st : att_stmt) : bool :=
   | None, None, None, None, None, None, None => false
   | _, _, _, _, _, _, _ => true
   end.
+
+(* format dispatch of verify_registration_response *)
+Definition verify_statement (O : oracles) (P : reg_policy) (fmt : bytes) (st : att_stmt) (adr cdj : bytes)
+    (ad : auth_data) (att : att_cred) : res unit :=
+  let roots := roots_for (rp_roots P) fmt in
+  let pk := ac_pubkey att in
+  if fmt_is fmt "none" then need (negb (stmt_any_set st))
+  else if fmt_is fmt "fido-u2f" then
+    verify_fido_u2f O (rp_now P) st cdj (ad_rp_hash ad) (ac_cred_id att) pk (ac_aaguid att) roots
+  else if fmt_is fmt "packed" then verify_packed O (rp_now P) st adr cdj pk roots
+  else if fmt_is fmt "tpm" then verify_tpm O (rp_now P) st adr cdj pk roots
+  else if fmt_is fmt "apple" then verify_apple O (rp_now P) st adr cdj pk roots (rp_builtin_apple P)
+  else if fmt_is fmt "android-safetynet" then verify_safetynet O (rp_now P) st adr cdj roots (rp_builtin_safetynet P)
+  else if fmt_is fmt "android-key" then verify_android_key O (rp_now P) st adr cdj pk roots (rp_builtin_android_key P)
+  else IRR.
 
 Definition verify_reg_rec (O : oracles) (P : reg_policy) (c : reg_cred) : res verified_reg :=
   guard (str_eqb (b64url_enc (rcr_raw_id c)) (rcr_id c)) (Lib InvalidRegistrationResponse) ;;;
@@ -80,26 +97,14 @@ Definition verify_reg_rec (O : oracles) (P : reg_policy) (c : reg_cred) : res ve
   match ad_att ad with
   | None => IRR
   | Some att =>
-      need (negb (match ac_cred_id att with [] => true | _ => false end)) ;;;
-      need (negb (match ac_pubkey att with [] => true | _ => false end)) ;;;
-      need (negb (match ac_aaguid att with [] => true | _ => false end)) ;;;
+      need (negb (is_nilb (ac_cred_id att))) ;;;
+      need (negb (is_nilb (ac_pubkey att))) ;;;
+      need (negb (is_nilb (ac_aaguid att))) ;;;
       let* dk := decode_credential_public_key (ac_pubkey att) in
       need (match alg_int (dk_alg dk) with Some a => existsb (Z.eqb a) (rp_algs P) | None => false end) ;;;
       match ao_fmt ao with
       | CText fmt =>
-          let roots := roots_for (rp_roots P) fmt in
-          let st := ao_stmt ao in
-          let adr := ao_auth_data_raw ao in
-          let pk := ac_pubkey att in
-          (if fmt_is fmt "none" then need (negb (stmt_any_set st))
-           else if fmt_is fmt "fido-u2f" then
-             verify_fido_u2f O (rp_now P) st cdj (ad_rp_hash ad) (ac_cred_id att) pk (ac_aaguid att) roots
-           else if fmt_is fmt "packed" then verify_packed O (rp_now P) st adr cdj pk roots
-           else if fmt_is fmt "tpm" then verify_tpm O (rp_now P) st adr cdj pk roots
-           else if fmt_is fmt "apple" then verify_apple O (rp_now P) st adr cdj pk roots (rp_builtin_apple P)
-           else if fmt_is fmt "android-safetynet" then verify_safetynet O (rp_now P) st adr cdj roots (rp_builtin_safetynet P)
-           else if fmt_is fmt "android-key" then verify_android_key O (rp_now P) st adr cdj pk roots (rp_builtin_android_key P)
-           else IRR) ;;;
+          verify_statement O P fmt (ao_stmt ao) (ao_auth_data_raw ao) cdj ad att ;;;
           let* bf := parse_backup_flags (f_be ad) (f_bs ad) in
           let* ag := aaguid_to_string (ac_aaguid att) in
           Ok {| vr_cred_id := ac_cred_id att; vr_pubkey := ac_pubkey att; vr_count := ad_count ad;
